@@ -708,6 +708,9 @@ func c15ForeignModel(c *Ctx, name string) {
 		return mon.GNode{Op: "Relu", Inputs: []string{in}, Outputs: []string{out}}
 	}
 	foreign := mon.GNode{Op: name, Inputs: []string{"a"}, Outputs: []string{"b"}}
+	if r.Chance(0.4) { // the unknown type under some operator-set domain: it is the type that is not implemented
+		foreign.Domain = r.PickStr("com.microsoft", "ai.onnx", "ai.onnx.ml", "ai.onnx.training", "AI.ONNX", "com.acme.custom")
+	}
 	var nodes []mon.GNode
 	clash := ""
 	layout := r.Intn(11)
